@@ -97,12 +97,27 @@ def main(tier):
             c.sample({"violating_behaviour": {"property": prop, "script": w["script"], "hist": w["hist"]}})
     # ---- R: exhaustive at a tiny bound + simulation
     total = 0; acts = 0
-    runs = [("ordRx", cfg(2, 3, 3, 1, 1, True, False, ["EmitBehaviour"]), 2, [], None)]
+    runs = [("ordRx", cfg(2, 3, 3, 1, 0, True, False, ["EmitBehaviour"]), 2, [], None)]
     nsim = 6000 if quick else 150000
     runs.append(("ordRs", cfg(2, 5, 5, 3, 1, True, False, ["EmitBehaviour"]), 2, ["-simulate", "num=%d" % (nsim // 4), "-depth", "24", "-seed", str(c.seed)], None))
     runs.append(("ordRg", cfg(2, 5, 5, 3, 1, True, False, ["EmitBehaviour"]), 2, ["-simulate", "num=%d" % (nsim // 16), "-depth", "24", "-seed", str(c.seed + 1)], 1))
     if not quick:
         runs.append(("ordR3", cfg(3, 6, 6, 3, 1, True, False, ["EmitBehaviour"]), 3, ["-simulate", "num=%d" % (nsim // 8), "-depth", "28", "-seed", str(c.seed + 2)], None))
+    # focus scripts: ONE program each, ALL host histories (exhaustive): suspensions after a combinator / a cancel,
+    # so that late settlements of race losers, duplicate cancellations etc. become observable in a later result
+    FOCUS = [
+        [{"o": "ord", "v": 1}, {"o": "ord", "v": 2}, {"o": "comb", "k": "race"}, {"o": "await", "v": 4}, {"o": "ord", "v": 3}],
+        [{"o": "ord", "v": 1}, {"o": "ord", "v": 2}, {"o": "comb", "k": "all"}, {"o": "tawait", "v": 4}, {"o": "tord", "v": 3}],
+        [{"o": "ord", "v": 1}, {"o": "cancel", "v": 1}, {"o": "tord", "v": 2}, {"o": "cancel", "v": 1}, {"o": "ord", "v": 3}],
+        [{"o": "tord", "v": 1}, {"o": "ord", "v": 2}, {"o": "comb", "k": "allSettled"}, {"o": "tawait", "v": 1}, {"o": "ord", "v": 3}],
+    ] + ([] if quick else [
+        [{"o": "ord", "v": 1}, {"o": "ord", "v": 2}, {"o": "ord", "v": 3}, {"o": "comb", "k": "race"}, {"o": "await", "v": 4}, {"o": "tawait", "v": 2}],
+        [{"o": "ord", "v": 1}, {"o": "ord", "v": 2}, {"o": "comb", "k": "any"}, {"o": "tawait", "v": 1}, {"o": "ord", "v": 3}],
+    ])
+    for i, scr in enumerate(FOCUS):
+        sf = os.path.join(vlib.BUILD, "ord", "focus_%d.ndjson" % i)
+        open(sf, "w").write(json.dumps(scr) + "\n")
+        runs.append(("ordF%d" % i, cfg(3, 6, 6 if quick else 7, 1, 0, True, False, ["EmitBehaviour"], scriptfile=sf), 3, [], None))
     for name, text, nv, extra, gc in runs:
         p = vlib.write_cfg(name + ".cfg", text)
         res, mism, summ = stream_replay(exe, name, p, nv, 4 if extra else 10, 1200 if quick else 7200, extra=extra, gc=gc)
